@@ -254,7 +254,9 @@ def c06(tier: str) -> int:
             for k in range(1, n + 1):
                 jobs.append({'mode': 'fault', 'snap': snaps[s['snap']], 'op': s['op'],
                              'kind': kind, 'k': k, 'then': s['then'],
-                             'then_chain': s.get('chain', []) if k % 3 == 0 else []})
+                             'then_chain': s.get('chain', []) if k % 3 == 0 else [],
+                             # every fourth fault point with wn.config.allow_multithreading on
+                             'mt': k % 4 == 1})
         jobs.append({'mode': 'fault', 'snap': snaps[s['snap']], 'op': s['op'],
                      'kind': 'close', 'k': 1, 'then': s['then']})
     nfault = len(jobs)
